@@ -97,6 +97,20 @@ pub fn seeds(tier: Tier) -> Vec<(Seed, Level)> {
         p.extend(pre);
         out.push((mutate::seed(&s.id, &p, &s.inst, &[after.clone()]), Level::Full));
     }
+    // constants whose type is declared after them, or twice with different widths: the loader accepts these,
+    // and the disassembler's whole-section tracker then pairs a one-word literal with any declared width
+    for w in [0u32, 1, 8, 16, 31, 32, 33, 64, 128, 0xFFFF_FFFF] {
+        for sgn in [0u32, 1] {
+            for (tname, ty) in [("int", Inst::new("TypeInt", None, Some(10), vec![Arg::Lit32(w), Arg::Lit32(sgn)])), ("float", Inst::new("TypeFloat", None, Some(10), vec![Arg::Lit32(w)]))] {
+                for v in [1u32, 0x8000_0000, 0xFFFF_FFFF] {
+                    let c = Inst::new("Constant", Some(10), Some(20), vec![Arg::Lit32(v)]);
+                    out.push((mutate::seed(&format!("Constant:type-after:{}{}:{}:{:#x}", tname, w, sgn, v), &[], &c, &[ty.clone()]), Level::Framing));
+                    let first = Inst::new("TypeInt", None, Some(10), vec![Arg::Lit32(32), Arg::Lit32(sgn)]);
+                    out.push((mutate::seed(&format!("Constant:type-twice:{}{}:{}:{:#x}", tname, w, sgn, v), &[first], &c, &[ty.clone()]), Level::Framing));
+                }
+            }
+        }
+    }
     out
 }
 
